@@ -487,7 +487,33 @@ theorem itemOK_of_legal (beh : Nat → Nat → List PVal → BehOut)
   exact pathGood_of_legal e b funcs target hsmall cur pops hl hvalid
 
 /-- the three outcomes, for `Call` on the graph `callGraph` builds: `K` marks whether the requirement edges
-are known to have survived pruning -/
+are known to have survived pruning; the oracle items are good -/
+theorem core_items (H : Hyps e b funcs target) (beh : Nat → Nat → List PVal → BehOut) (K : Prop)
+    (hreqs : K → (callGraph {} e b funcs target false none).unsat = [] →
+      ∀ k f, (C01.stdCtx e b funcs target beh).funcOf k = some f →
+        (∃ u, (C01.stdCtx e b funcs target beh).g.hasEdge (.func k) u = true) →
+        ∀ v ∈ f.input.values, v.lab.vertex ∈ (C01.stdCtx e b funcs target beh).g.outs (.func k))
+    (fuel : Nat) (memo : List (Nat × Memo)) (orc : List OrcItem)
+    (hitems : ∀ it ∈ orc, ItemOK (C01.stdCtx e b funcs target beh).g it) :
+    (callWith (C01.stdCtx e b funcs target beh) (callGraph {} e b funcs target false none) target fuel
+      (initSt (callGraph {} e b funcs target false none).cg memo orc)).1 ≠ .panic .finalValue ∧
+    (callWith (C01.stdCtx e b funcs target beh) (callGraph {} e b funcs target false none) target fuel
+      (initSt (callGraph {} e b funcs target false none).cg memo orc)).1 ≠ .panic .setNotAssignable ∧
+    (K → (callWith (C01.stdCtx e b funcs target beh) (callGraph {} e b funcs target false none) target fuel
+      (initSt (callGraph {} e b funcs target false none).cg memo orc)).1 ≠ .missingArg) := by
+  by_cases hsat : (callGraph {} e b funcs target false none).unsat = []
+  · have gf := facts_std H beh K (fun hk => hreqs hk hsat)
+    exact callWith_notBad gf _ target rfl (fun _ _ v hv => params_kept hsat beh v hv) fuel _
+      ⟨initSt_sinv H beh memo orc, hitems⟩
+  · have hne : (!(callGraph {} e b funcs target false none).unsat.isEmpty) = true := by
+      cases hu : (callGraph {} e b funcs target false none).unsat with
+      | nil => exact absurd hu hsat
+      | cons a l => rfl
+    unfold callWith
+    rw [if_pos hne]
+    exact ⟨by simp, by simp, fun _ => by simp⟩
+
+/-- … for a legal oracle -/
 theorem core (H : Hyps e b funcs target) (beh : Nat → Nat → List PVal → BehOut) (K : Prop)
     (hreqs : K → (callGraph {} e b funcs target false none).unsat = [] →
       ∀ k f, (C01.stdCtx e b funcs target beh).funcOf k = some f →
@@ -504,19 +530,8 @@ theorem core (H : Hyps e b funcs target) (beh : Nat → Nat → List PVal → Be
     (callWith (C01.stdCtx e b funcs target beh) (callGraph {} e b funcs target false none) target fuel
       (initSt (callGraph {} e b funcs target false none).cg memo orc)).1 ≠ .panic .setNotAssignable ∧
     (K → (callWith (C01.stdCtx e b funcs target beh) (callGraph {} e b funcs target false none) target fuel
-      (initSt (callGraph {} e b funcs target false none).cg memo orc)).1 ≠ .missingArg) := by
-  by_cases hsat : (callGraph {} e b funcs target false none).unsat = []
-  · have gf := facts_std H beh K (fun hk => hreqs hk hsat)
-    refine callWith_notBad gf _ target rfl (fun _ _ v hv => params_kept hsat beh v hv) fuel _ ⟨initSt_sinv H beh memo orc, ?_⟩
-    intro it hit
-    exact itemOK_of_legal beh hsmall it (hleg it hit)
-  · have hne : (!(callGraph {} e b funcs target false none).unsat.isEmpty) = true := by
-      cases hu : (callGraph {} e b funcs target false none).unsat with
-      | nil => exact absurd hu hsat
-      | cons a l => rfl
-    unfold callWith
-    rw [if_pos hne]
-    exact ⟨by simp, by simp, fun _ => by simp⟩
+      (initSt (callGraph {} e b funcs target false none).cg memo orc)).1 ≠ .missingArg) :=
+  core_items H beh K hreqs fuel memo orc (fun it hit => itemOK_of_legal beh hsmall it (hleg it hit))
 
 end
 
